@@ -264,9 +264,15 @@ type solveResult struct {
 
 var solverSem = make(chan struct{}, 16)
 
-// solve races the installed solvers on query (without prelude/set-logic); the
-// first definitive answer wins.
-func solve(dir, name, query string, timeoutS int, want int) solveResult {
+type queryVariant struct {
+	tag      string // "" for the full query
+	query    string
+	satCount bool // a sat answer of this variant is meaningful
+}
+
+// solve races the installed solvers on the query variants; the first
+// definitive answer wins (sat only from variants whose sat is meaningful).
+func solve(dir, name string, variants []queryVariant, timeoutS int) solveResult {
 	solverSem <- struct{}{}
 	defer func() { <-solverSem }()
 	os.MkdirAll(dir, 0o755)
@@ -276,51 +282,60 @@ func solve(dir, name, query string, timeoutS int, want int) solveResult {
 	type one struct {
 		solver, status, out string
 		ms                  int64
+		definitive          bool
 	}
-	ch := make(chan one, len(solvers))
+	njobs := len(solvers) * len(variants)
+	ch := make(chan one, njobs)
 	var wg sync.WaitGroup
-	for _, s := range solvers {
-		s := s
-		file := base + "." + s.name + ".smt2"
-		q := s.prelude + query
-		if s.name == "cvc5-1.0.3" {
-			q = strings.ReplaceAll(q, "(get-model)", "")
-		}
-		os.WriteFile(file, []byte(q), 0o644)
-		wg.Add(1)
-		go func() {
-			defer wg.Done()
-			t0 := time.Now()
-			argv := s.argv(file, timeoutS)
-			cmd := exec.CommandContext(ctx, argv[0], argv[1:]...)
-			var out bytes.Buffer
-			cmd.Stdout = &out
-			cmd.Stderr = &out
-			cmd.Run()
-			st := "unknown"
-			first := strings.TrimSpace(strings.SplitN(out.String(), "\n", 2)[0])
-			switch first {
-			case "unsat", "sat", "unknown", "timeout":
-				st = first
-			default:
-				if ctx.Err() != nil {
-					st = "cancelled"
-				} else if strings.Contains(out.String(), "timeout") || strings.Contains(out.String(), "interrupted") {
-					st = "timeout"
-				} else {
-					st = "error"
-				}
+	for _, v := range variants {
+		for _, s := range solvers {
+			s, v := s, v
+			tag := s.name
+			if v.tag != "" {
+				tag += "+" + v.tag
 			}
-			ch <- one{s.name, st, out.String(), time.Since(t0).Milliseconds()}
-		}()
+			file := base + "." + tag + ".smt2"
+			q := s.prelude + v.query
+			os.WriteFile(file, []byte(q), 0o644)
+			wg.Add(1)
+			go func() {
+				defer wg.Done()
+				t0 := time.Now()
+				argv := s.argv(file, timeoutS)
+				cmd := exec.CommandContext(ctx, argv[0], argv[1:]...)
+				var out bytes.Buffer
+				cmd.Stdout = &out
+				cmd.Stderr = &out
+				cmd.Run()
+				st := "unknown"
+				first := strings.TrimSpace(strings.SplitN(out.String(), "\n", 2)[0])
+				switch first {
+				case "unsat", "sat", "unknown", "timeout":
+					st = first
+				default:
+					if ctx.Err() != nil {
+						st = "cancelled"
+					} else if strings.Contains(out.String(), "timeout") || strings.Contains(out.String(), "interrupted") {
+						st = "timeout"
+					} else {
+						st = "error"
+					}
+				}
+				def := st == "unsat" || (st == "sat" && v.satCount)
+				if st == "sat" && !v.satCount {
+					st = "sat(ignored)"
+				}
+				ch <- one{tag, st, out.String(), time.Since(t0).Milliseconds(), def}
+			}()
+		}
 	}
 	res := solveResult{Status: "unknown", All: map[string]string{}}
 	got := 0
-	for got < len(solvers) {
+	for got < njobs {
 		o := <-ch
 		got++
 		res.All[o.solver] = o.status
-		if o.status == "unsat" || o.status == "sat" {
+		if o.definitive {
 			res.Status, res.Solver, res.Ms, res.Output = o.status, o.solver, o.ms, o.out
 			cancel()
 			break
